@@ -30,6 +30,8 @@ def run(ctx):
     meshdrive.bfs(ctx, 'C02', depth, subs)
     for case in ctx.mine(meshdrive.deep_family()):
         meshdrive.run_history(case, ctx.rec, 'C02', cap=2000)
+    for case in ctx.mine(meshdrive.large_family()):
+        meshdrive.run_history(case, ctx.rec, 'C02', cap=20000)
     n = ctx.share(1600 if ctx.quick else 8000)
     strat = meshdrive.history_cases(max_ops=30 if ctx.quick else 60,
                                     allow=('t', 'x', 'tx', 'unif', 'unifx', 'iso', 'aniso', 'grade'))
